@@ -35,6 +35,9 @@ static uint32_t cnt_size(CO_OBJ *o, CO_NODE *n, uint32_t w) { (void)o; (void)n; 
 static CO_ERR cnt_init(CO_OBJ *o, CO_NODE *n) { (void)n; (*(uint32_t *)o->Data)++; return CO_ERR_NONE; }
 static CO_ERR cnt_rd(CO_OBJ *o, CO_NODE *n, void *b, uint32_t s) { (void)o; (void)n; (void)b; (void)s; return CO_ERR_NONE; }
 static const CO_OBJ_TYPE CntType = { cnt_size, cnt_init, cnt_rd, 0, 0 };
+/* the same, but the initialisation reports a failure (NVM not readable, no timer left, ...) */
+static CO_ERR cntf_init(CO_OBJ *o, CO_NODE *n) { (void)n; (*(uint32_t *)o->Data)++; return CO_ERR_TYPE_INIT; }
+static const CO_OBJ_TYPE CntFailType = { cnt_size, cntf_init, cnt_rd, 0, 0 };
 
 static CO_NODE Node;
 
@@ -132,10 +135,12 @@ static unsigned long NInitDict;
 static void part_init(void)
 {
     for (int n = 0; n <= 40; n++) {
+        /* failing: -1 = no entry's initialisation fails; k = the initialisation of entry k reports an error (all others still run once) */
+        for (int failing = -1; failing < n; failing += (n > 12 && failing >= 0) ? 5 : 1)
         for (int via_node = 0; via_node < 2; via_node++) {
             CO_OBJ *root = malloc(sizeof(CO_OBJ) * (size_t)(n + 1));
             uint32_t *cnt = calloc((size_t)(n + 1), sizeof(uint32_t));
-            for (int i = 0; i < n; i++) { root[i].Key = CO_KEY(0x3000 + i / 3, i % 3, CO_OBJ_____RW); root[i].Type = &CntType; root[i].Data = (CO_DATA)&cnt[i]; }
+            for (int i = 0; i < n; i++) { root[i].Key = CO_KEY(0x3000 + i / 3, i % 3, CO_OBJ_____RW); root[i].Type = (i == failing) ? &CntFailType : &CntType; root[i].Data = (CO_DATA)&cnt[i]; }
             root[n].Key = 0; root[n].Type = 0; root[n].Data = 0;
             if (via_node) {
                 static CO_TMR_MEM tm[4]; static uint8_t sdobuf[CO_SDO_BUF_BYTE * CO_SSDO_N];
@@ -147,8 +152,8 @@ static void part_init(void)
                 if (n > 0 || 1) { CODictInit(&cod, &Node, root, (uint16_t)(n + 1)); if (cod.Root) (void)CODictObjInit(&cod, &Node); }
             }
             for (int i = 0; i < n; i++)
-                if (cnt[i] != 1) { VIOL(i == 0 ? "init-once/first-entry" : "init-once/other-entry", "dictionary of %d entries (%s): init of entry %d ran %u times",
-                                        n, via_node ? "CONodeInit" : "CODictObjInit", i, cnt[i]); break; }
+                if (cnt[i] != 1) { VIOL(failing >= 0 ? "init-once/after-failed-init" : i == 0 ? "init-once/first-entry" : "init-once/other-entry", "dictionary of %d entries (%s, init of entry %d fails): init of entry %d ran %u times",
+                                        n, via_node ? "CONodeInit" : "CODictObjInit", failing, i, cnt[i]); break; }
             NInitDict++;
             free(root); free(cnt);
         }
